@@ -318,3 +318,46 @@ def _check_inter(t):
     l1, u1, l2, u2 = [t.inputs[n].snapshot.flat() for n in ("l1", "u1", "l2", "u2")]
     spec = z3.And(*[z3.And(V.R(l1[j]) < V.R(u2[j]), V.R(l2[j]) < V.R(u1[j])) for j in range(m)])
     t.prove_paths("true_iff_open_boxes_overlap_in_every_coordinate", paths, lambda p: V.Bz(p.value) == spec)
+
+
+# ----------------------------------------------------------------------------------------------
+# FixedPointsDesignSpace.__init__: one region object PER design (no sharing), of the configured kind and objective count;
+# unknown kinds rejected
+# ----------------------------------------------------------------------------------------------
+def _fpds_init(kind, cls_name):
+    @task("C14", "FixedPointsDesignSpace.__init__[confidence_type=%s]" % kind)
+    def _t(t):
+        from pyvc.harness import cls_ref
+        from pyvc.symexec import find_obj
+        from pyvc.values import SObj
+        N, d, m = 3, 2, 2
+        pts = t.inp("points", InArr("pts", (N, d)))
+        obj = SObj(cls_ref("vopy/design_space.py", "FixedPointsDesignSpace"))
+        paths = t.run("vopy/design_space.py", "FixedPointsDesignSpace.__init__", [pts, m, kind], self_val=obj)
+        if cls_name is None:
+            t.prove("raises_NotImplementedError", z3.BoolVal(bool(paths) and all(p.kind == "raise" and p.value[0] == "NotImplementedError" for p in paths)))
+            return
+        t.no_raise(paths)
+
+        def goal(p):
+            o = find_obj(p.st, obj.oid)
+            regs = o.fields.get("confidence_regions")
+            ok = (o.fields.get("points") is pts and o.fields.get("cardinality") == N and isinstance(regs, list) and len(regs) == N
+                  and all(isinstance(r, SObj) and getattr(r.cls, "name", None) == cls_name for r in regs)
+                  and len(set(r.oid for r in regs)) == N)                      # a separate region object per design
+            if not ok:
+                return False
+            cs = []
+            for r in regs:
+                if cls_name == "RectangularConfidenceRegion":
+                    cs.append(z3.BoolVal(r.fields["lower"].shape == (m,) and r.fields["upper"].shape == (m,)))
+                else:
+                    cs.append(z3.BoolVal(r.fields["center"].shape == (m,) and r.fields["sigma"].shape == (m, m)))
+            return z3.And(*cs)
+        t.prove_paths("one_separate_region_of_the_configured_kind_per_design", paths, goal)
+    return _t
+
+
+_fpds_init("hyperrectangle", "RectangularConfidenceRegion")
+_fpds_init("hyperellipsoid", "EllipsoidalConfidenceRegion")
+_fpds_init("sphere", None)
